@@ -248,10 +248,16 @@ def units(tier, seed):
     for i in range(4):
         out.append(("infinity", {"names": names[i::4] + ["t251a", "t1021b", "t65521a"][i:i + 1], "per": 2 if q else 24}))
     out.append(("toy-hyp", {"names": list(gen.TOY_PRIME), "examples": 1500 if q else 30000}))
+    out.append(("faults", {"jobset": 'keys', "arg": 'NIST192p', "examples": 40 if tier == "quick" else 1500, "triples": 400 if tier == "quick" else 20000}))
+    out.append(("faults", {"jobset": 'keys', "arg": 'SECP160r1', "examples": 40 if tier == "quick" else 1500, "triples": 400 if tier == "quick" else 20000}))
     return out
 
 
 def run_unit(ctx, name, **kw):
+    if name == "faults":
+        from . import faults
+        faults.run_set(ctx, **kw)
+        return
     if name == "toy":
         toy_sweep(ctx, kw["curve"], [bytes.fromhex(x) for x in kw["digests"]])
         ctx.sample({"curve": kw["curve"], "d": "all", "k": "all", "digests": kw["digests"][:6]})
@@ -269,4 +275,8 @@ def run_unit(ctx, name, **kw):
 
 
 def replay(ctx, case):
+    if case.get("kind") == "fault-history":
+        from . import faults
+        faults.replay(ctx, case)
+        return
     check_case(ctx, case)
